@@ -8,7 +8,7 @@ usage: tools/seedmatrix.py [--copy] [--seeds 1,2,3] [--own] [id-prefix ...]
   --own    only the seeded change's own property"""
 import json, os, subprocess, sys, glob
 ROOT = os.path.dirname(os.path.dirname(os.path.abspath(__file__)))
-EXTRA = {"C01-2A": ["C03", "C06"], "C02-2A": ["C01", "C06"], "C03-2A": ["C01", "C06"], "C04-2A": ["C13"], "C13-2B": ["C04"], "C05-2A": ["C01"], "C05-2B": ["C01"], "C06-2A": ["C02", "C01"], "C06-2B": ["C15"], "C07-2A": [], "C08-2A": ["C17"], "C17-2A": ["C08"], "C11-2A": ["C10", "C12"], "C12-2B": ["C10", "C11"], "C01-B": ["C05", "C03"], "C03-A": ["C05"], "C05-A": ["C03"], "C05-B": ["C03"], "C09-A": ["C08"], "C09-B": ["C08"], "C08-A": ["C17"], "C08-B": ["C09"], "C10-B": ["C11"], "C11-B": ["C10", "C12"], "C12-A": ["C11"], "C12-B": ["C11"], "C05-5C": ["C18"], "C09-5C": ["C01"], "C02-5C": ["C01"], "C03-4C": ["C05"], "C06-4C": ["C05"], "C06-6C": ["C15"], "C13-6C": ["C04"], "C04-6C": ["C13"], "C03-7C": ["C05"], "C03-9C": ["C01"], "C05-9C": ["C03"], "C06-10C": ["C14"], "C13-10C": ["C04"], "C05-11C": ["C18"]}
+EXTRA = {"C01-2A": ["C03", "C06"], "C02-2A": ["C01", "C06"], "C03-2A": ["C01", "C06"], "C04-2A": ["C13"], "C13-2B": ["C04"], "C05-2A": ["C01"], "C05-2B": ["C01"], "C06-2A": ["C02", "C01"], "C06-2B": ["C15"], "C07-2A": [], "C08-2A": ["C17"], "C17-2A": ["C08"], "C11-2A": ["C10", "C12"], "C12-2B": ["C10", "C11"], "C01-B": ["C05", "C03"], "C03-A": ["C05"], "C05-A": ["C03"], "C05-B": ["C03"], "C09-A": ["C08"], "C09-B": ["C08"], "C08-A": ["C17"], "C08-B": ["C09"], "C10-B": ["C11"], "C11-B": ["C10", "C12"], "C12-A": ["C11"], "C12-B": ["C11"], "C05-5C": ["C18"], "C09-5C": ["C01"], "C02-5C": ["C01"], "C03-4C": ["C05"], "C06-4C": ["C05"], "C06-6C": ["C15"], "C13-6C": ["C04"], "C04-6C": ["C13"], "C03-7C": ["C05"], "C03-9C": ["C01"], "C05-9C": ["C03"], "C06-10C": ["C14"], "C13-10C": ["C04"], "C05-11C": ["C18"], "C10-7C": ["C11"]}
 def sh(cmd, **kw):
     return subprocess.run(cmd, shell=True, stdout=subprocess.PIPE, stderr=subprocess.STDOUT, text=True, **kw)
 os.environ["VERIF_EVIDENCE_DIR"] = "/tmp/verif-mut-evidence"  # never clobber the committed evidence
